@@ -21,6 +21,8 @@ RULE = (
 ASSUMPTIONS = [
     "terminal semantics: deferred auto-wrap (a line of exactly the width occupies one row), tab stops every 8 columns",
     "clear(k) is only called with 1 <= k <= number of logical lines of the section",
+    "screen mismatches that involve a line with a tab that does not fit into one terminal row (a terminal clamps a tab at "
+    "the right margin, the row accounting wraps it) are bucketed under C15.screen:tab-approximation (known finding)",
     "section.lines / section.content accounting is compared as a secondary clause (C15.accounting)",
 ]
 
@@ -34,6 +36,7 @@ TEXTS = {
     "two": "l1\nl2",
     "bold": "x" + B + "bold" + EB + "y",
     "tab": "\tz",
+    "midtab": "ab\tc",
 }
 
 
@@ -58,6 +61,18 @@ def reduced_alphabet():
     return [("create",), ("write", 0, "short"), ("write", 0, "over"), ("write", 0, "two"), ("write", 1, "short"),
             ("write", 1, "long"), ("overwrite", 0, "short"), ("overwrite", 1, "over"), ("clear", 0), ("clear", 1),
             ("clear1", 0), ("clear1", 1)]
+
+
+def inexact_tab(ops, width):
+    """True when some written line has a tab and does not fit into one terminal row: clikit accounts the line by
+    its tab-expanded length, while a terminal clamps a tab at the right margin instead of wrapping it."""
+    for o in ops:
+        if o[0] in ("write", "overwrite"):
+            text = TEXTS.get(o[2], o[2])
+            for line in plain_of(text).split("\n"):
+                if "\t" in line and len(line.expandtabs(8)) > width:
+                    return True
+    return False
 
 
 class World(object):
@@ -95,7 +110,7 @@ class World(object):
             new = plain_of(text).split("\n")
             lines.extend(new)
             self.appended.extend(new)
-            if s < len(self.sections) - 1 or any(len(l.replace("\t", " " * 8)) > self.width for l in new):
+            if s < len(self.sections) - 1 or any(len(l.expandtabs(8)) > self.width for l in new):
                 self.nt = True
         elif k == "overwrite":
             text = op[2] if op[2] not in TEXTS else TEXTS[op[2]]
@@ -150,15 +165,17 @@ def run_sequence(ctx, part, case, by_construction=False):
                     raise HarnessError("terminal emulator: %s" % e)
                 want, wcur = w.expected_screen()
                 if t.lines() != want:
-                    ctx.fail(part, "C15.screen", case, want, {"after_op": i, "screen": t.lines()},
-                             sig="partial-clear" if any(o[0] in ("clear1", "cleark") for o in ops[: i + 1]) else "screen")
+                    sig = "partial-clear" if any(o[0] in ("clear1", "cleark") for o in ops[: i + 1]) else "screen"
+                    if inexact_tab(ops[: i + 1], width):
+                        sig = "tab-approximation"
+                    ctx.fail(part, "C15.screen", case, want, {"after_op": i, "screen": t.lines()}, sig=sig)
                     return
                 if t.cursor() != wcur:
                     ctx.fail(part, "C15.screen", case, list(wcur), {"after_op": i, "cursor": list(t.cursor())}, sig="cursor")
                     return
                 for si, sec in enumerate(w.sections):
-                    rows = sum(len(term.chunk(l.replace("\t", " " * 8), width)) for l in w.model[si])
-                    if sec.lines != rows:
+                    rows = sum(len(term.chunk(l.expandtabs(8), width)) for l in w.model[si])
+                    if sec.lines != rows and not inexact_tab(ops[: i + 1], width):
                         ctx.fail(part, "C15.accounting", case, rows, {"after_op": i, "section": si, "lines": sec.lines},
                                  sig="lines")
                         return
